@@ -119,6 +119,8 @@ type HandlerPlan struct {
 	Msg     string
 	Release string // "" (implicit on return) | early | twice | helper | concurrent
 	Late    bool   // return is a separate scheduling decision
+	// ErrWithResp (Reply == err): the handler returns a non-nil response value together with its error
+	ErrWithResp bool
 	// streams
 	StreamK   int    // number of replies to stream
 	StreamEnd string // "" (return nil) | err | hang
@@ -239,6 +241,7 @@ type QFInvocation struct {
 
 // HandlerRec records one execution of a puppet handler.
 type HandlerRec struct {
+	SendFailed int // streamed replies whose send returned an error
 	Tok       int // -1 unknown
 	Srv, Inc  int
 	Serial    int
